@@ -55,6 +55,7 @@ func c03(c *q.Ctx) {
 	}
 
 	inBlockDistinct(c)
+	utxoCacheRemove(c)
 	lockKeyExtraction(c)
 	poolReload(c)
 	if cb := c.Fn("bcs/ledger/xledger/ledger::(*Ledger).ConfirmBlock"); cb != nil {
